@@ -426,11 +426,16 @@ type loopCfg struct {
 	// lost-reply = the EventK-th EXEC of the link is executed and its connection dies unanswered
 	EventAB, EventBA string
 	EventK           int
+	// snapshot phase against a peer that already holds some of the snapshot's keys (an earlier
+	// migration, a client that created them): Preload = every second dataset key of A is at B,
+	// with the same content, before anything starts; KeyExists = replay.keyExists of both links
+	Preload   bool
+	KeyExists string
 }
 
 func (c loopCfg) String() string {
-	return fmt.Sprintf("mode=%s window=%d filter=%s snapshot=%v restore=%v version=%s buf=%d conflict=%v late-reverse=%v clients=%d ops=%d restart[A→B]=%q restart[B→A]=%q k=%d",
-		c.Mode, c.Window, c.Filter, c.Snapshot, c.Restore, c.Version, c.BufSize, c.Conflict, c.LateReverse, c.Clients, c.OpsPerClient, c.EventAB, c.EventBA, c.EventK)
+	return fmt.Sprintf("mode=%s window=%d filter=%s snapshot=%v restore=%v version=%s buf=%d conflict=%v late-reverse=%v clients=%d ops=%d restart[A→B]=%q restart[B→A]=%q k=%d preload=%v keyExists=%s",
+		c.Mode, c.Window, c.Filter, c.Snapshot, c.Restore, c.Version, c.BufSize, c.Conflict, c.LateReverse, c.Clients, c.OpsPerClient, c.EventAB, c.EventBA, c.EventK, c.Preload, c.KeyExists)
 }
 
 const (
@@ -499,7 +504,7 @@ func openOutput(c loopCfg, src, dst *site) (*syncer.RedisOutput, error) {
 	g.Channel = &config.ChannelConfig{}
 	g.Output = &config.OutputConfig{Replay: config.ReplayConfig{
 		ResumeFromBreakPoint: &tr, BisyncEnabled: &tr, ReplayRdbEnableRestore: &restore, ReplayTransaction: &tr,
-		KeyExists: "replace", MaxProtoBulkLen: 512 << 20, TargetDbCfg: &tdb, TargetDb: -1,
+		KeyExists: c.KeyExists, MaxProtoBulkLen: 512 << 20, TargetDbCfg: &tdb, TargetDb: -1,
 		BatchCmdCount: c.Window, BatchTicker: 10 * time.Millisecond, BatchBufferSize: 64 * 1024, KeepaliveTicker: time.Hour,
 		ReplayRdbParallel: 1, UpdateCheckpointTicker: time.Hour, Mode: c.Mode,
 		Stats: config.OutputStats{DisableLog: true, LogInterval: time.Hour},
